@@ -25,6 +25,8 @@ pub struct C04Deep {
     pub max_depth: usize,
     /// longest soft-requirement list of the `many-soft-requirements` shape
     pub max_soft: usize,
+    /// only the `many-soft-requirements` shape (C14's copy of the stage)
+    pub only_soft: bool,
 }
 
 #[derive(Clone, Debug, PartialEq, Eq, Hash)]
@@ -48,7 +50,12 @@ pub const SHAPES: [&str; 7] = [
 impl C04Deep {
     pub fn decode(&self, tape: &[u16]) -> DeepCase {
         let mut t = Tape::new(tape);
-        let shape = t.weighted(&[2, 2, 2, 2, 2, 2, 3]);
+        let shape = if self.only_soft {
+            t.next();
+            6
+        } else {
+            t.weighted(&[2, 2, 2, 2, 2, 2, 3])
+        };
         // log-uniform depth in [128, max_depth]
         let max = self.max_depth.max(64);
         let bits = (usize::BITS - max.leading_zeros()) as usize;
@@ -263,8 +270,25 @@ impl C04Deep {
         let expect_sat = dc.shape == 2 || dc.shape == 6;
         if let (6, Outcome::Sat(sol)) = (dc.shape, &res.outcome) {
             // ids are dense in construction order: soft package i has solvable id 3 + i
+            if self.id == "C14" {
+                // every entry that is neither Unknown nor excluded is installable next to
+                // everything else (one candidate, no dependencies): it must be in the solution
+                let have: std::collections::HashSet<u32> = sol.iter().copied().collect();
+                if let Some(i) = (0..dc.depth).find(|&i| i % 3 != 1 && i % 7 != 2 && !have.contains(&(3 + i as u32))) {
+                    rep.failure = Some(Failure {
+                        signature: "C14:compatible-soft-requirement-dropped".into(),
+                        detail: format!("soft requirement #{i} of {} (p{}=1: one candidate, no dependencies, mentioned by nothing else) is not in the solution of {} solvables", dc.depth, 3 + i, sol.len()),
+                    });
+                    return rep;
+                }
+                if let Some(i) = (0..dc.depth).find(|&i| i % 3 != 1 && i % 7 == 2 && !have.contains(&(3 + i as u32))) {
+                    // a soft requirement named directly is exempt from its own exclusion
+                    let _ = i;
+                    rep.labels.push("excluded-soft-requirement-skipped");
+                }
+            }
             if let Some(bad) = sol.iter().find(|&&id| id >= 3 && (id as usize - 3) % 3 == 1) {
-                if self.id == "C02" {
+                if self.id == "C02" || self.id == "C14" {
                     rep.failure = Some(Failure {
                         signature: "C01:unknown-deps-selected".into(),
                         detail: format!("soft requirement with Unknown dependencies (solvable id {bad}) is part of the solution ({} soft requirements)", dc.depth),
@@ -278,7 +302,13 @@ impl C04Deep {
             Outcome::Sat(_) if dc.shape == 6 => {}
             Outcome::Sat(s) if expect_sat && s.len() == dc.depth => {}
             Outcome::Unsat(_) if !expect_sat => {}
-            _ if self.id != "C02" => rep.labels.push("outcome-differs-from-construction"),
+            _ if self.id == "C04" => rep.labels.push("outcome-differs-from-construction"),
+            _ if self.id == "C14" => {
+                rep.failure = Some(Failure {
+                    signature: "C14:soft-requirements-caused-unsolvable".into(),
+                    detail: format!("the hard problem (a chain of three packages) is solvable; with {} soft requirements solve returned {}", dc.depth, res.outcome.kind()),
+                });
+            }
             o => {
                 let signature = match o {
                     Outcome::Sat(_) if expect_sat => "C01:requirement-unmet",
